@@ -1,2 +1,95 @@
-From AV Require Import Base Utf8 Json Codec.
-Theorem C04_placeholder : True. Proof. exact I. Qed.
+(* C04 - The JSON-RPC codec is loss-free and conforms to each version's wire format.
+   Models: lib/Json.v (json.dumps / json.loads as used), model/Codec.v (jsonrpc.py:40-575).
+   Tier 1 (payload level) and tier 2 (every encoded message is printable ASCII without newline)
+   are proved; the text-level round trip loads (print v) = v is tied by the byte-exact
+   correspondence in both directions only (partial). *)
+From AV Require Import Base Utf8 Json Gen_jsonrpc Codec CodecProofs.
+
+Theorem C04_facts :
+  allow_batches V1 = false /\ allow_batches V2 = true /\ allow_batches Loose = true /\
+  encode_payload (JObj [([97]%N, JArr [JInt 1; JStr [233; 10]%N; JNull]); ([98]%N, JObj [])]) = encode_probe.
+Proof. repeat split. Qed.
+
+(* loss-free: what encoder [e] writes, decoder [d] (same version, or Loose) reads back *)
+Theorem C04_roundtrip_request : forall e d meth args rid payload,
+  compat e d = true -> is_args args = true -> ok_id d rid = true ->
+  request_payload e meth args rid = Some payload ->
+  payload_to_item d payload = MItem (if is_null rid then INotification meth args else IRequest meth args rid).
+Proof. exact roundtrip_request. Qed.
+
+Theorem C04_roundtrip_result : forall e d v rid, compat e d = true -> ok_id d rid = true ->
+  payload_to_item d (response_payload e v rid) = MItem (IResponse (RResult v) rid).
+Proof. exact roundtrip_result. Qed.
+
+Theorem C04_roundtrip_error : forall e d code msg rid,
+  compat e d = true -> ok_id d rid = true -> is_int code = true ->
+  payload_to_item d (error_payload e code msg rid) = MItem (IResponse (RError code msg) rid).
+Proof. exact roundtrip_error. Qed.
+
+Theorem C04_roundtrip_batch : forall e d ms ps,
+  compat e d = true -> allow_batches d = true ->
+  all_some (map (fun m => request_payload e (fst (fst m)) (snd (fst m)) (snd m)) ms) = Some ps -> ps <> [] ->
+  payload_to_item d (JArr ps) = MItem (IBatch ps) /\
+  (Forall (fun m => is_args (snd (fst m)) = true /\ ok_id d (snd m) = true) ms ->
+   Forall2 (fun m p => process_request d p =
+                       MItem (if is_null (snd m) then INotification (fst (fst m)) (snd (fst m))
+                              else IRequest (fst (fst m)) (snd (fst m)) (snd m))) ms ps).
+Proof. exact roundtrip_batch. Qed.
+
+(* the loose decoder gives every message of either strict encoder the same meaning:
+   instances of the theorems above with d = Loose (compat e Loose holds for every e) *)
+Theorem C04_loose_agrees : forall e, compat e Loose = true.
+Proof. intros []; reflexivity. Qed.
+
+(* wire formats *)
+Theorem C04_v2_format : forall e meth args rid v code msg, out_proto e = V2 ->
+  (forall p, request_payload e meth args rid = Some p -> get k_jsonrpc p = Some (JStr s_2_0)) /\
+  v2_format_response (response_payload e v rid) /\ v2_format_response (error_payload e code msg rid).
+Proof. exact v2_formats. Qed.
+
+Theorem C04_v1_format : forall meth args rid v code msg,
+  v1_format_response (response_payload V1 v rid) /\ v1_format_response (error_payload V1 code msg rid) /\
+  (forall p, is_args args = true -> request_payload V1 meth args rid = Some p ->
+             is_list args = true /\ get k_params p = Some args) /\
+  (forall ms, batch_message V1 ms = None).
+Proof. exact v1_formats. Qed.
+
+(* auto-detection settles on a protocol that decodes the first message as its originating
+   version would (it is compat with the encoder, so the round trips above apply) *)
+Theorem C04_autodetect_request : forall e meth args rid p,
+  request_payload e meth args rid = Some p -> compat e (detect_protocol p) = true.
+Proof. exact autodetect_request. Qed.
+Theorem C04_autodetect_response : forall e v code msg rid,
+  compat e (detect_protocol (response_payload e v rid)) = true /\
+  compat e (detect_protocol (error_payload e code msg rid)) = true.
+Proof. exact autodetect_response. Qed.
+Theorem C04_autodetect_batch : forall e ms ps, out_proto e = V2 ->
+  all_some (map (fun m => request_payload e (fst (fst m)) (snd (fst m)) (snd m)) ms) = Some ps -> ps <> [] ->
+  detect_protocol (JArr ps) = V2.
+Proof. exact autodetect_batch. Qed.
+
+(* every encoded message is one line of printable ASCII: no raw newline can occur *)
+Theorem C04_print_ascii_no_newline : forall v, wf_json v = true ->
+  forallb printable (encode_payload v) = true /\ ~ In 10%N (encode_payload v).
+Proof. intros v H. split; [now apply print_ascii|now apply print_no_newline]. Qed.
+
+(* non-vacuity *)
+Example C04_ex :
+  let args := JObj [([107]%N, JArr [JStr [55296; 233]%N; JInt (-5); JFloat [49; 46; 53]%N])] in
+  is_args args = true /\ wf_json args = true /\
+  exists p, request_payload Loose [109]%N args (JStr []) = Some p /\
+            payload_to_item V2 p = MItem (IRequest [109]%N args (JStr [])) /\ detect_protocol p = V2.
+Proof. repeat split. eexists. repeat split. Qed.
+
+Print Assumptions C04_facts.
+Print Assumptions C04_roundtrip_request.
+Print Assumptions C04_roundtrip_result.
+Print Assumptions C04_roundtrip_error.
+Print Assumptions C04_roundtrip_batch.
+Print Assumptions C04_loose_agrees.
+Print Assumptions C04_v2_format.
+Print Assumptions C04_v1_format.
+Print Assumptions C04_autodetect_request.
+Print Assumptions C04_autodetect_response.
+Print Assumptions C04_autodetect_batch.
+Print Assumptions C04_print_ascii_no_newline.
